@@ -27,7 +27,7 @@ for sid, c in sorted(cat.items()):
             mm = re.match(r"(C\d+) (\w+) exit=(\d+)", hdr)
             if not mm:
                 continue
-            fps = re.findall(r"fingerprint: (\S+)", blk)
+            fps = [x.strip() for x in re.findall(r"fingerprint: (.+)", blk)]
             detections.append({"check": mm.group(1), "tier": mm.group(2), "exit": int(mm.group(3)), "new_violation_fingerprints": fps[:6]})
     meta = {
         "id": sid,
@@ -36,7 +36,7 @@ for sid, c in sorted(cat.items()):
         "change": c["what"],
         "needs_to_manifest": c["needs"],
         "files": c.get("files", []),
-        "patch": "patch.diff (applies to /repo HEAD %s%s)" % (head.group(1) if head else "?", "; patch.orig.diff is the sub-agent's original, made before hook H10 touched the same lines" if os.path.exists(os.path.join(d, "patch.orig.diff")) else ""),
+        "patch": "patch.diff (confirmed at /repo commit %s; the detection runs applied it to the /repo HEAD named in detect-*.txt%s)" % (head.group(1) if head else "?", "; patch.orig.diff is the sub-agent's original, made before hook H10 touched the same lines" if os.path.exists(os.path.join(d, "patch.orig.diff")) else ""),
         "demonstration": {"file": demo[0].strip(), "command": demo[1].strip() if len(demo) > 1 else "",
                           "exit_on_unchanged_tree": int(m.group(1)) if m else None, "exit_with_change": int(m.group(2)) if m else None},
         "existing_suite_with_change": {"command": "cargo nextest run %s --no-fail-fast --test-threads 8 --retries 3 --offline" % (scope.group(1).split(" (")[0] if scope else "--workspace"),
